@@ -41,14 +41,23 @@ def main():
         txt = re.sub(r"^(#+) ", lambda m: "#" * (len(m.group(1)) - top + 3) + " ", txt, flags=re.M)
         out += [txt, "", "_claimed in MANIFEST.json: %s_" % ("yes" if pid in claimed else "no"), ""]
     out += ["## 8. Seeded breaking changes (written by independent sub-agents given only the property text) and what caught them", "",
+            open(os.path.join(V, "seeded", "FIRSTPASS.md")).read().strip() if os.path.exists(os.path.join(V, "seeded", "FIRSTPASS.md")) else "", "",
+            "@TALLY@", "",
             "| seed | property | what it needs to manifest | checks run → outcome |", "|---|---|---|---|"]
+    tally = dict(own=0, other=0, missed=0, special=0, notrun=0)
     for m in sorted(glob.glob(os.path.join(V, "seeded", "*", "meta.json"))):
         meta = json.load(open(m)); name = os.path.basename(os.path.dirname(m))
         rp = os.path.join(os.path.dirname(m), "result.json")
         res = json.load(open(rp)) if os.path.exists(rp) else {}
         oc = "; ".join("%s: %s" % (k, ("caught — " + (v["lines"][1].strip()[:140] if len(v.get("lines", [])) > 1 else "VIOLATION")) if v.get("caught") else "MISSED (exit %s)" % v.get("exit")) for k, v in sorted(res.items())) or "not run yet"
-        if meta.get("status"): oc = meta["status"][:300]
+        if meta.get("status"): oc = meta["status"][:300]; tally["special"] += 1
+        elif not res: tally["notrun"] += 1
+        elif res.get(meta.get("property"), {}).get("caught"): tally["own"] += 1
+        elif any(v.get("caught") for v in res.values()): tally["other"] += 1
+        else: tally["missed"] += 1
         out.append("| %s | %s | %s | %s |" % (name, meta.get("property"), str(meta.get("needs", "")).replace("|", "/")[:260], oc.replace("|", "/")))
+    out[out.index("@TALLY@")] = ("**Tally (generated):** %d seeded changes; %d caught by the quick check of their own property, %d only by another property's check, "
+        "%d missed, %d obsolete/neutralised by later fixes, %d not run yet." % (sum(tally.values()), tally["own"], tally["other"], tally["missed"], tally["special"], tally["notrun"]))
     cp = os.path.join(V, "design", "CORRECTIONS.md")
     out += ["", "## 9. Corrections: false alarms, withdrawn fixes and revised decisions", "",
             open(cp).read().strip() if os.path.exists(cp) else "(none recorded)"]
